@@ -7,10 +7,9 @@ import DateutilVerif.Proofs.RRuleNthYM
 namespace RRule
 open Cal
 
-/-- BYEASTER is the only computed mask, and there is no BYDAY -/
+/-- BYEASTER is the only computed mask (plain BYDAY allowed) -/
 structure EasterRule (r : Rule) : Prop where
   byweekno : truthy r.byweekno = false
-  byweekday : r.byweekday = none
   bynweekday : truthy r.bynweekday = false
   byeaster : truthy r.byeaster = true
 
@@ -27,9 +26,9 @@ theorem dayFiltered_easter (he : EasterRule r) (f : YearFacts r y info) (mask : 
   rw [← f.yearordinal] at hdate
   have hmask : Py.getIdx mask i = .ok (mask[i.toNat]'(by omega)) := getIdx_int mask i h0 (by omega)
   unfold dayFiltered
-  rw [mmask_date f i h0 (by omega), mdaymask_date f i h0 (by omega), nmdaymask_date f i h0 (by omega), hnw, hm]
-  have htn : truthy (none : Option (List Int)) = false := rfl
-  simp only [maskMiss, he.byweekno, he.byeaster, he.byweekday, htn, Bool.false_eq_true, ↓reduceIte, hmask]
+  rw [mmask_date f i h0 (by omega), wdaymask_date f i h0 (by omega), mdaymask_date f i h0 (by omega),
+      nmdaymask_date f i h0 (by omega), hnw, hm]
+  simp only [maskMiss, he.byweekno, he.byeaster, Bool.false_eq_true, ↓reduceIte, hmask]
   have c' : i < daysInYear y := by rw [← f.yearlen]; exact h1
   have hyd : (decide (i < info.yearlen) && !memO (i + 1) r.byyearday && !memO (-info.yearlen + i) r.byyearday ||
       decide (i ≥ info.yearlen) && !memO (i + 1 - info.yearlen) r.byyearday &&
@@ -45,21 +44,20 @@ theorem dayFiltered_easter (he : EasterRule r) (f : YearFacts r y info) (mask : 
     have c2 : ¬ (i ≥ info.yearlen) := by omega
     simp [h1, c2]
   unfold simpleOk
-  rw [hyd, he.byweekday]
-  have hmn : ∀ w, memO w (none : Option (List Int)) = false := fun _ => rfl
-  simp only [htn, hmn]
+  rw [hyd]
   generalize memO (info.yearordinal + i - toOrdinal (fromOrdinal (info.yearordinal + i)).1 1 1 + 1) r.byyearday = ya
   generalize memO (info.yearordinal + i - toOrdinal (fromOrdinal (info.yearordinal + i)).1 1 1 + 1 -
               daysInYear (fromOrdinal (info.yearordinal + i)).1 - 1) r.byyearday = yb
   generalize (fromOrdinal (info.yearordinal + i)).2.1 = mo
   generalize (fromOrdinal (info.yearordinal + i)).2.2 = dd
   generalize (fromOrdinal (info.yearordinal + i)).1 = yy
+  generalize weekdayOfOrd (info.yearordinal + i) = wd
   generalize (mask[i.toNat]'(by omega)) = mv
   have hbne : (mv != 0) = !(mv == 0) := rfl
   rw [hbne]
   generalize (mv == 0) = mz
-  cases truthy r.bymonth <;> cases memO mo r.bymonth <;>
-    cases r.bymonthday.isEmpty <;> cases r.bynmonthday.isEmpty <;>
+  cases truthy r.bymonth <;> cases memO mo r.bymonth <;> cases truthy r.byweekday <;>
+    cases memO wd r.byweekday <;> cases r.bymonthday.isEmpty <;> cases r.bynmonthday.isEmpty <;>
     cases r.bymonthday.contains dd <;> cases r.bynmonthday.contains (dd - daysInMonth yy mo - 1) <;>
     cases truthy r.byyearday <;> cases ya <;> cases yb <;> cases mz <;> rfl
 
@@ -112,8 +110,8 @@ structure EasterYArgs (a : Args) : Prop where
   interval : 1 ≤ a.interval
   valid : a.dtstart.Valid
   byweekno : a.byweekno = none
-  bymonthday : a.bymonthday = none
-  byweekday : a.byweekday = none
+  monthday_nz : ∀ x ∈ a.bymonthday.getD [], x ≠ 0
+  plain : ∀ w ∈ a.byweekday.getD [], w.2 = 0
   easter : ∃ el, a.byeaster = some el ∧ el ≠ [] ∧ ∀ o ∈ el, -80 ≤ o ∧ o ≤ 250
 
 variable {a : Args}
@@ -144,10 +142,10 @@ theorem ey_easters (ea : EasterYArgs a) :
 abbrev easterRuleOf (a : Args) (bh bm bs : Option (List Int)) : Rule :=
   { freq := a.freq, interval := a.interval, wkst := a.wkst.getD 0,
     dtstart := { a.dtstart with us := 0 }, tz := a.tz, count := a.count, untilDT := a.untilDT,
-    bysetpos := a.bysetpos, bymonth := a.bymonth.map sortedSet, bymonthday := [],
-    bynmonthday := [], byyearday := a.byyearday.map sortedSet,
+    bysetpos := a.bysetpos, bymonth := a.bymonth.map sortedSet, bymonthday := bymonthdayOf a,
+    bynmonthday := bynmonthdayOf a, byyearday := a.byyearday.map sortedSet,
     byeaster := some (eastersOf a), byweekno := none,
-    byweekday := none, bynweekday := none,
+    byweekday := byweekdayOf a, bynweekday := bynweekdayOf a,
     byhour := bh, byminute := bm, bysecond := bs,
     timeset := some (Spec.RRule.timesOf a none none none) }
 
@@ -161,14 +159,43 @@ theorem ey_rule (ea : EasterYArgs a) (h : construct a = .ok r) : ∃ bh bm bs, r
   obtain ⟨el, hel, _, _⟩ := ea.easter
   refine ⟨bh, bm, bs, ?_⟩
   have hbm : bymonthOf a = a.bymonth.map sortedSet := by unfold bymonthOf; simp [ey_noDay ea]
-  have hmd : monthdayArg a = none := by unfold monthdayArg; simp [ey_noDay ea, ea.bymonthday]
-  have hbmd : bymonthdayOf a = [] := by unfold bymonthdayOf; rw [hmd]
-  have hbnd : bynmonthdayOf a = [] := by unfold bynmonthdayOf; rw [hmd]
-  have hwa : weekdayArg a = none := by unfold weekdayArg; simp [ey_noDay ea, ea.byweekday]
-  have hwd : byweekdayOf a = none := by unfold byweekdayOf; rw [hwa]
-  have hnwd : bynweekdayOf a = none := by unfold bynweekdayOf; rw [hwa]
   have hes : a.byeaster.map (sortBy ltInt) = some (eastersOf a) := by unfold eastersOf; rw [hel]; rfl
-  simp [easterRuleOf, hbm, hbmd, hbnd, hwd, hnwd, hes, ea.byweekno]
+  simp [easterRuleOf, hbm, hes, ea.byweekno]
+
+/-- the same argument set without the parts that `YMArgs` excludes (for the BYDAY lemmas) -/
+def stripE (a : Args) : Args := { a with byweekno := none, byeaster := none, bymonthday := none }
+
+theorem ey_strip (ea : EasterYArgs a) : YMArgs (stripE a) :=
+  { freq := Or.inl ea.freq, interval := ea.interval, valid := ea.valid, byweekno := rfl, byeaster := rfl,
+    monthday_nz := by intro x hx; simp [stripE] at hx, plain := ea.plain }
+
+theorem ey_weekdayArg (ea : EasterYArgs a) : weekdayArg a = a.byweekday := by
+  unfold weekdayArg; simp [ea.freq]
+
+theorem byweekdayOf_stripE (ea : EasterYArgs a) : byweekdayOf (stripE a) = byweekdayOf a := by
+  unfold byweekdayOf
+  rw [ey_weekdayArg ea, ym_weekdayArg (ey_strip ea)]
+  rfl
+
+theorem ey_nwd (ea : EasterYArgs a) : truthy (bynweekdayOf a) = false := by
+  unfold bynweekdayOf
+  rw [ey_weekdayArg ea]
+  cases hl : a.byweekday with
+  | none => rfl
+  | some l =>
+    dsimp only
+    have hnth : nthWeekdays a l = [] := by
+      unfold nthWeekdays
+      have : l.filter (fun w => !(w.2 == 0 || decide (a.freq > 1))) = [] := by
+        apply List.filter_eq_nil_iff.mpr
+        intro w hw
+        have := ea.plain w (by rw [hl]; exact hw)
+        simp [this]
+      rw [this]; rfl
+    rw [hnth]
+    split
+    · rfl
+    · rfl
 
 theorem ey_cuts (ea : EasterYArgs a) (h : construct a = .ok r) : CutsAgree a r := by
   obtain ⟨bh, bm, bs, hr⟩ := ey_rule ea h
@@ -176,7 +203,7 @@ theorem ey_cuts (ea : EasterYArgs a) (h : construct a = .ok r) : CutsAgree a r :
 
 theorem ey_easterRule (ea : EasterYArgs a) (h : construct a = .ok r) : EasterRule r := by
   obtain ⟨bh, bm, bs, hr⟩ := ey_rule ea h
-  rw [hr]; exact ⟨rfl, rfl, rfl, (ey_easters ea).2.2⟩
+  rw [hr]; exact ⟨rfl, ey_nwd ea, (ey_easters ea).2.2⟩
 
 /-- **bridge**: inside the year `y`, calendar predicate ∧ "Easter + offset" is `dateOk` -/
 theorem ey_bridge (ea : EasterYArgs a) (h : construct a = .ok r) (info : Info) (y j : Int)
@@ -190,6 +217,14 @@ theorem ey_bridge (ea : EasterYArgs a) (h : construct a = .ok r) (info : Info) (
   rw [hel, Option.getD_some] at hmem
   have hfo := date_of_yday y j hy hj0 hj1
   rw [← hyo] at hfo
+  have hpos : 1 ≤ info.yearordinal + j := by
+    rw [hyo]
+    have := toOrdinal_pos y 1 1 hy ⟨by omega, by omega, by omega, by have := daysInMonth_bounds y 1; omega⟩
+    omega
+  obtain ⟨_, hvd, _⟩ := toOrdinal_fromOrdinal (info.yearordinal + j) hpos
+  rw [hfo] at hvd
+  obtain ⟨_, _, hd1, hd2⟩ := hvd
+  dsimp only at hd1 hd2
   rw [hr]
   unfold simpleOk Spec.RRule.dateOk
   rw [hfo]
@@ -197,11 +232,24 @@ theorem ey_bridge (ea : EasterYArgs a) (h : construct a = .ok r) (info : Info) (
   have hnd : Spec.RRule.noDayParts a = noDayParts a := rfl
   have hmonths : Spec.RRule.months a = a.bymonth.getD [] := by
     unfold Spec.RRule.months; cases a.bymonth <;> simp [hnd, ey_noDay ea]
-  have hmd : Spec.RRule.monthdays a = [] := by
-    unfold Spec.RRule.monthdays; simp [hnd, ey_noDay ea, ea.bymonthday]
-  have hwds : Spec.RRule.weekdays a = [] := by
-    unfold Spec.RRule.weekdays; simp [hnd, ey_noDay ea, ea.byweekday]
-  rw [hmonths, hmd, hwds, ea.byweekno, hel, month_clause]
+  have hmda : monthdayArg a = a.bymonthday := by unfold monthdayArg; simp [ey_noDay ea]
+  have hmd : Spec.RRule.monthdays a = a.bymonthday.getD [] := by
+    unfold Spec.RRule.monthdays; simp [hnd, ey_noDay ea]
+  have hmc := monthday_clause_core a (by rw [hmda]; exact ea.monthday_nz)
+    (monthDayOfYday (isLeap y) j).2
+    ((monthDayOfYday (isLeap y) j).2 - daysInMonth y (monthOfYday (isLeap y) j) - 1) (by omega) (by omega)
+  rw [hmda] at hmc
+  have hwds : Spec.RRule.weekdays a = a.byweekday.getD [] := by
+    unfold Spec.RRule.weekdays; simp [hnd, ey_noDay ea]
+  have hwc := weekday_clause_ym (ey_strip ea) (weekdayOfOrd (info.yearordinal + j))
+    (fun wn => Spec.RRule.nthOk a (info.yearordinal + j) y (monthOfYday (isLeap y) j) wn.2)
+  rw [byweekdayOf_stripE ea] at hwc
+  have hwc' : (!truthy (byweekdayOf a) || memO (weekdayOfOrd (info.yearordinal + j)) (byweekdayOf a)) =
+      ((a.byweekday.getD []).isEmpty || (a.byweekday.getD []).any (fun wn =>
+        wn.1 == weekdayOfOrd (info.yearordinal + j) &&
+          (wn.2 == 0 || decide (a.freq > 1) ||
+            Spec.RRule.nthOk a (info.yearordinal + j) y (monthOfYday (isLeap y) j) wn.2))) := hwc
+  rw [hmonths, hmd, hwds, ea.byweekno, hel, month_clause, hwc', hmc]
   have htn : truthy (none : Option (List Int)) = false := rfl
   have hmn : ∀ w, memO w (none : Option (List Int)) = false := fun _ => rfl
   simp only [htn, hmn, List.isEmpty_nil, Bool.not_true, Bool.or_false, Bool.not_false, Bool.true_or, Bool.and_true,
@@ -217,15 +265,19 @@ theorem ey_bridge (ea : EasterYArgs a) (h : construct a = .ok r) (info : Info) (
       rw [Bool.eq_iff_iff, decide_eq_true_eq, List.contains_iff_mem, hmem]
   rw [hec]
   generalize ((a.bymonth.getD []).isEmpty || (a.bymonth.getD []).contains (monthOfYday (isLeap y) j)) = b1
+  generalize ((a.byweekday.getD []).isEmpty || _) = b3
+  generalize ((a.bymonthday.getD []).isEmpty || _ || _) = b4
   cases el with
   | nil => exact absurd rfl hne
   | cons x0 xs0 =>
     dsimp only
     generalize (x0 :: xs0).contains (info.yearordinal + j - Spec.RRule.easterOrd y) = b2
     rcases a.byyearday with _ | (_ | ⟨x, xs⟩)
-    · cases b1 <;> cases b2 <;> rfl
-    · cases b1 <;> cases b2 <;> rfl
+    · cases b1 <;> cases b2 <;> cases b3 <;> cases b4 <;> rfl
+    · cases b1 <;> cases b2 <;> cases b3 <;> cases b4 <;> rfl
     · rw [yearday_clause (some (x :: xs))]
+      dsimp only
+      cases b1 <;> cases b2 <;> cases b3 <;> cases b4 <;> simp
 
 /-- "the model state at the start of period `k`" -/
 structure EasterGood (a : Args) (r : Rule) (k : Nat) (st : State) : Prop where
@@ -348,8 +400,8 @@ theorem ey_init (ea : EasterYArgs a) (h : construct a = .ok r) (hlo : 1583 ≤ a
 
 /-- **`iter_eq_spec`, YEARLY with BYEASTER on the supported class** (the complement of D-C01d: offsets
     −80..250; years 1583..4099, where C19 ties `easter.easter` to Meeus/Jones/Butcher): FREQ=YEARLY,
-    INTERVAL ≥ 1, a valid start, any BYMONTH / BYYEARDAY / BYHOUR / BYMINUTE / BYSECOND / BYSETPOS, any COUNT /
-    UNTIL, no BYMONTHDAY / BYDAY / BYWEEKNO: exactly the specification's recurrence set. -/
+    INTERVAL ≥ 1, a valid start, any BYMONTH / BYMONTHDAY (non-zero) / BYYEARDAY / plain BYDAY / BYHOUR / BYMINUTE /
+    BYSECOND / BYSETPOS, any COUNT / UNTIL, no nth BYDAY / BYWEEKNO: exactly the specification's recurrence set. -/
 theorem iter_eq_spec_yearly_easter (ea : EasterYArgs a) (h : construct a = .ok r) (n : Nat)
     (hlo : 1583 ≤ a.dtstart.y) (hy : a.dtstart.y + n * a.interval ≤ 4099) :
     (iter r n).1 = Spec.RRule.occ a n := by
